@@ -331,3 +331,67 @@ pub fn add_rec_shadows(p: &mut Program, rng: &mut Rng) -> (usize, usize) {
     }
     n
 }
+
+/// Header names that differ by case only: a literal `headers = { ... }` object gets a copy of its first header under
+/// the same name in another case (`'ETag` and `'etag`). They are two properties of the object and two headers of the
+/// document. Whatever treats header names as equal up to case (as HTTP does) in one place and as spelled in another
+/// loses or merges one of them. Returns the number of objects extended.
+pub fn add_header_case_twins(p: &mut Program, rng: &mut Rng) -> usize {
+    fn flip(name: &str) -> Option<String> {
+        let l = name.to_ascii_lowercase();
+        let u = name.to_ascii_uppercase();
+        if l != name {
+            Some(l)
+        } else if u != name {
+            Some(u)
+        } else {
+            None
+        }
+    }
+    fn walk(e: &mut E, rng: &mut Rng) -> usize {
+        let mut n = 0;
+        if let E::Content { metas, .. } = e {
+            for (k, v) in metas.iter_mut() {
+                if *k != MetaK::Headers {
+                    continue;
+                }
+                if let E::Obj(ps) = v {
+                    // first plain property of the object (annotated ones are wrapped)
+                    let first = ps.iter().find_map(|x| match x {
+                        E::Prop { name, .. } => Some((name.clone(), x.clone())),
+                        _ => None,
+                    });
+                    if let Some((name, prop)) = first {
+                        if let Some(other) = flip(&name) {
+                            let taken = ps.iter().any(|x| matches!(x.peel(), E::Prop { name: n2, .. } if *n2 == other));
+                            if !taken && rng.chance(2, 3) {
+                                let mut twin = prop;
+                                if let E::Prop { name, .. } = &mut twin {
+                                    *name = other;
+                                }
+                                ps.push(twin);
+                                n += 1;
+                            }
+                        }
+                    }
+                }
+            }
+        }
+        for c in e.children_mut() {
+            n += walk(c, rng);
+        }
+        n
+    }
+    let mut n = 0;
+    for d in 0..p.decls.len() {
+        n += walk(&mut p.decls[d].rhs, rng);
+    }
+    for m in p.modules.iter_mut() {
+        for s in m.stmts.iter_mut() {
+            if let Stmt::Res { e } = s {
+                n += walk(e, rng);
+            }
+        }
+    }
+    n
+}
